@@ -56,6 +56,8 @@ func checkC06(c *Ctx) {
 	c.Expect("C06-R20", 2)
 	c.Rule("C06-R21", "further calls on a finished simulation do not panic: where the physical cell array is dropped, the bounds that index it (physw, physh) are reset with it")
 	c.Expect("C06-R21", 1)
+	c.Rule("C06-R22", "after Fini PollEvent returns nil at once, also where Init failed: every return of the simulation's Init follows the creation of its event and quit channels (or the constructor makes them)")
+	c.Expect("C06-R22", 2)
 	c.Rule("C06-R17", "Fini returns (does not panic) on a screen whose Init failed: what Init creates (the quit channel, a Tty it opens itself) is closed or called on the shutdown path only behind a non-nil test or the running flag, in the terminfo screen as in the simulation")
 	c.Expect("C06-R17", 2)
 	c.Rule("C06-R16", "the read deadline that gets the input loop out of a blocked Read keeps working: a Tty implementation that opens its own handle and wakes its reader with a deadline never calls Fd() on that handle (Fd switches the descriptor to blocking mode; Suspend and Fini would wait for the next key)")
@@ -91,6 +93,7 @@ func checkC06(c *Ctx) {
 		checkStopBeforeDrain(c, p, "C06-R19", "tScreen")
 		checkDrainMakesDescriptorNonBlocking(c, p, "C06-R20")
 		checkSimFiniResetsBounds(c, p, "C06-R21")
+		checkSimInitMakesQueuesFirst(c, p, "C06-R22")
 		checkFiniSafeBeforeInit(c, p, "C06-R17", "simscreen")
 		for _, f := range []string{"tty", "ti"} {
 			ws := []string{}
@@ -325,6 +328,10 @@ func c06LocksOf(c *Ctx, p *Prog, tname string) {
 		short := fn.RelString(p.Tcell.Pkg)
 		sum := d.summaries[fn]
 		bad := false
+		for _, m := range sum.mixed {
+			bad = true
+			c.Fail("C06-R2", short+":lock-state-differs-at-join", p.pos(m.Pos()), "the "+tname+" mutex is held along one way into this point and not along another: a loop that goes round (or a function that returns) holding it blocks the shutdown path for ever")
+		}
 		for _, b := range sum.blocking {
 			bad = true
 			c.Fail("C06-R2", short+":blocking-while-locked", p.pos(b.Pos()), "blocking operation with the "+tname+" mutex held: "+b.String())
